@@ -141,7 +141,7 @@ PROPS = {
         'not_decided': ["Django's own MigrationGraph plan order (trusted)"],
     },
     'C17': {
-        'families': ['contracts.execution'],
+        'families': ['contracts.execution', 'contracts.batches'],
         'level': 'proof',
         'technique': 'contract-based deductive verification with a ghost lifecycle monitor (typestate): VCs from the real AST, z3/cvc5',
         'text': 'Lifecycle monitor Idle->Evolving->Done|Failed threaded through Evolver.evolve (evolving at most once and before '
@@ -155,7 +155,7 @@ PROPS = {
         'not_decided': ['applying_evolution payload at the execute_tasks call site (evolutions= is not passed there)'],
     },
     'C07': {
-        'families': ['contracts.execution'],
+        'families': ['contracts.execution', 'contracts.batches'],
         'level': 'proof',
         'technique': 'contract-based deductive verification with ghost transaction/run monitors: VCs from the real AST, z3/cvc5',
         'text': 'Transaction monitor on SQLExecutor (__enter__/__exit__/new_transaction/finish_transaction/ensure_transaction/'
